@@ -101,8 +101,17 @@ Outcome run_case(const Case& c) {
     }
     Built b = build_message(c);
     auto frags = row(c, "frag"); auto rds = row(c, "rd");
+    bool boundary = c.cfg.size() > 8 && c.cfg[8] != 0;
+    if (boundary) {
+        // index-boundary family: the buffer is sized so that (received bytes + 8 bytes of index per header) lands
+        // within a few bytes of the capacity; every delivery must then either be refused (ENOBUFS) or parse correctly
+        long want = (long)b.wire.size() + 8 * (long)b.headers.size() + (c.cfg[8] - 1000);
+        cap = (uint16_t)std::max<long>(6000, std::min<long>(65535, want));
+    }
     Parsed ref = parse_message(is_req, b.wire, {}, cap, 0x00, {});
+    if (ref.enobufs && boundary) { out.label("index_boundary:refused"); out.nontrivial = true; return out; }
     if (ref.enobufs) { out.status = Outcome::INCONCLUSIVE; out.msg = "ENOBUFS"; return out; }
+    if (boundary) out.label("index_boundary:accepted");
     if (ref.rc != 0) return Outcome::violation("a valid message was rejected (rc " + std::to_string(ref.rc) + ") when delivered in one piece");
     // ---- against the generated message
     if (ref.start != b.start) return Outcome::violation("start line parsed as '" + ref.start + "', generated '" + b.start + "'");
@@ -116,17 +125,20 @@ Outcome run_case(const Case& c) {
     if (ref.body != b.body) return Outcome::violation("body differs: read " + std::to_string(ref.body.size()) + " bytes, generated " + std::to_string(b.body.size()));
     if (ref.read_rcs.empty() || ref.read_rcs.back() != 0) return Outcome::violation("the read after the body returned " + std::to_string(ref.read_rcs.empty() ? -99 : ref.read_rcs.back()) + ", not end-of-body");
     // ---- same result for {generated pieces, 1-byte pieces}, other read sizes, other buffer fill
-    for (int v = 0; v < 2; v++) {
-        Parsed p = parse_message(is_req, b.wire, v == 0 ? frags : std::vector<size_t>{1}, cap, v == 0 ? 0xA5 : 0xFF, rds);
+    // v 2/3: the same deliveries into a re-used buffer that still holds this very message (keep-alive repeat): bytes
+    // after the received ones then look exactly like the rest of the message
+    for (int v = 0; v < 4; v++) {
+        if (boundary && (v & 1)) continue;      // (tens of thousands of 1-byte recvs add nothing at this boundary)
+        Parsed p = parse_message(is_req, b.wire, (v & 1) == 0 ? frags : std::vector<size_t>{1}, cap, v == 0 ? 0xA5 : 0xFF, rds, false, v >= 2 ? &b.wire : nullptr);
         if (p.enobufs) { out.label("enobufs_variant"); continue; }
         if (p.bound_hit) return Outcome::violation("endless loop: recv called more than 10x the input length");
         if (p.outcome() != ref.outcome())
-            return Outcome::violation(std::string("result depends on fragmentation (") + (v == 0 ? "generated pieces" : "1-byte pieces") + "): " + p.outcome().substr(0, 300) + "  VS one piece: " + ref.outcome().substr(0, 300));
+            return Outcome::violation(std::string("result depends on fragmentation (") + ((v & 1) == 0 ? "generated pieces" : "1-byte pieces") + std::string(v >= 2 ? ", buffer re-used after the same message" : "") + "): " + p.outcome().substr(0, 300) + "  VS one piece: " + ref.outcome().substr(0, 300));
     }
     // labels
     size_t hdr_end = b.wire.find("\r\n\r\n") + 4, posn = 0, fi = 0;
     while (posn < b.wire.size() && !frags.empty()) { posn += frags[fi++ % frags.size()]; if (posn > hdr_end - 4 && posn < hdr_end) b.split_terminator = true; }
-    out.nontrivial = b.split_terminator || b.nchunks >= 2 || (!frags.empty() && c.cfg.at(2) == 1);
+    out.nontrivial = boundary || b.split_terminator || b.nchunks >= 2 || (!frags.empty() && c.cfg.at(2) == 1);
     if (b.split_terminator) out.label("terminator_split");
     if (b.nchunks >= 2) out.label("multi_chunk");
     static const char* fn[] = {"content_length", "chunked", "close_delimited"};
@@ -145,6 +157,16 @@ rc::Gen<Case> gen_case(const Options&) {
         long blen = *rc::gen::weightedOneOf<long>({{1, rc::gen::just<long>(0)}, {4, range(1, 64)}, {3, range(65, 3000)}, {2, range(3001, 20000)}});
         long cap = *range(32 * 1024, 65535);
         c.cfg = {mode, is_req, framing, blen, *range(0, 999), cap, *range(0, 9999), *rc::gen::weightedOneOf<long>({{2, rc::gen::just<long>(0)}, {2, range(1, 64)}})};
+        if (mode == 0 && *range(0, 6) == 0) {
+            // index-boundary family: hundreds to thousands of tiny headers, a small body that arrives together with the end
+            // of the header block, and a buffer whose capacity is within +-40 bytes of (message + 8 bytes of index per header)
+            long nhb = *range(650, 2600);
+            c.cfg[2] = 0; c.cfg[3] = *range(1, 60);
+            c.cfg.push_back(1000 + *range(-40, 40));
+            for (long i = 0; i < nhb; i++) c.S("hdr").push_back({*range(1, 3), *range(0, 999), *range(0, 3), *range(0, 999), 0, -1});
+            { long n = *range(0, 3); std::vector<long> r; for (long i = 0; i < n; i++) r.push_back(*range(2000, 5000)); if (n) c.S("frag").push_back(r); }
+            return c;
+        }
         long nh = *rc::gen::weightedOneOf<long>({{1, rc::gen::just<long>(0)}, {5, range(1, 8)}, {2, range(9, 40)}});
         for (long i = 0; i < nh; i++) c.S("hdr").push_back({*range(1, 24), *range(0, 999), *rc::gen::weightedOneOf<long>({{1, rc::gen::just<long>(0)}, {5, range(1, 40)}, {1, range(41, 150)}}), *range(0, 999), *range(0, 1),
                                                              (i > 0 && *range(0, 5) == 0) ? *range(0, i - 1) : -1});
